@@ -233,6 +233,7 @@ func c11(c *Ctx) {
 	if c.Replay == "" {
 		c11EndToEnd(c, r)
 		c11Precedence(c, r.Fork())
+		c11TransferAgent(c, r.Fork())
 	}
 }
 
@@ -429,6 +430,84 @@ func c11EndToEnd(c *Ctx, r *Rng) {
 		if rundir != dir {
 			os.RemoveAll(rundir)
 		}
+	}
+}
+
+// c11TransferAgent: a hostile repository AND a hostile LFS server (the server is named by lfs.url, an
+// allowed .lfsconfig key, so the repository's author controls it): the server answers every batch request
+// with whichever non-built-in transfer adapter the client advertises. Whatever the .lfsconfig says, the
+// client must not advertise — let alone start — a transfer agent that only the repository names.
+func c11TransferAgent(c *Ctx, r *Rng) {
+	n := c.N(16, 160)
+	for i := 0; i < n; i++ {
+		base := filepath.Join(c.Work, fmt.Sprintf("c11ta-%d", i))
+		srv := newLfsServer()
+		srv.pickAdvertised = true
+		w, err := newScenRepo(c, filepath.Join(base, "w"), srv)
+		if err != nil {
+			srv.srv.Close()
+			continue
+		}
+		w.git("config", "--unset", "lfs.url") // the endpoint comes from .lfsconfig, as in a fresh clone
+		sentinel := filepath.Join(base, "agent-ran")
+		prog := filepath.Join(base, "agent.sh")
+		os.WriteFile(prog, []byte("#!/bin/sh\ntouch \""+sentinel+"\"\nexit 1\n"), 0o755)
+		content := r.Bytes(200)
+		oid := sha(content)
+		srv.mu.Lock()
+		srv.objs[oid] = content
+		srv.mu.Unlock()
+		w.write(".gitattributes", []byte("*.bin filter=lfs -text\n"))
+		w.write("f.bin", canonicalPointer(oid, int64(len(content))))
+		w.gitEnv([]string{"GIT_LFS_SKIP_SMUDGE=1"}, "add", "-A")
+		w.git("commit", "-qm", "pointer")
+		name := Pick(r, []string{"evil", "x1", "agent"})
+		keys := [][2]string{{"lfs.url", srv.srv.URL}}
+		shape := Pick(r, []string{"plain", "access-suffix", "access-suffix", "remote-lfsurl-suffix", "standalone+access-suffix", "args-too", "url-scoped-access"})
+		switch shape {
+		case "plain":
+			keys = append(keys, [2]string{"lfs.customtransfer." + name + ".path", prog})
+		case "access-suffix": // rides on the documented pattern lfs.<url>.access
+			keys = append(keys, [2]string{"lfs.customtransfer." + name + ".path.access", prog})
+		case "remote-lfsurl-suffix": // rides on the documented pattern remote.<name>.lfsurl
+			keys = append(keys, [2]string{"remote.xlfs.customtransfer." + name + ".path.lfsurl", prog})
+		case "standalone+access-suffix":
+			keys = append(keys, [2]string{"lfs.customtransfer." + name + ".path.access", prog}, [2]string{"lfs.standalonetransferagent", name})
+		case "args-too":
+			keys = append(keys, [2]string{"lfs.customtransfer." + name + ".path.access", prog}, [2]string{"lfs.customtransfer." + name + ".args", "x"}, [2]string{"lfs.customtransfer." + name + ".direction", "download"})
+		case "url-scoped-access":
+			keys = append(keys, [2]string{"lfs." + srv.srv.URL + "/customtransfer." + name + ".path.access", prog})
+		}
+		for _, kv := range keys {
+			w.git("config", "-f", ".lfsconfig", kv[0], kv[1])
+		}
+		loc := Pick(r, []string{"worktree", "index", "head"})
+		if loc != "worktree" {
+			w.git("add", ".lfsconfig")
+			if loc == "head" {
+				w.git("commit", "-qm", "cfg")
+				w.git("rm", "-q", "--cached", ".lfsconfig")
+			}
+			os.Remove(filepath.Join(w.dir, ".lfsconfig"))
+		}
+		cmd := Pick(r, [][]string{{"fetch"}, {"pull"}, {"fetch", "--all"}})
+		out, code := w.runLfs(cmd...)
+		enc := fmt.Sprintf("C11 transfer-agent seed=%d idx=%d location=%s shape=%s keys=%v cmd=%s", c.Seed, i, loc, shape, keys[1:], strings.Join(cmd, " "))
+		c.R.Eval(enc, true)
+		c.R.Count("agent." + shape)
+		if _, err := os.Stat(sentinel); err == nil {
+			c.R.Add(Finding{Kind: "oracle", What: "a program named only in .lfsconfig was executed as a transfer agent", Case: enc, Impl: fmt.Sprintf("exit %d: %s", code, clip(out, 300))})
+		}
+		srv.mu.Lock()
+		for _, rq := range srv.reqs {
+			if rq.Kind == "batch" && strings.Contains(rq.Body, "\""+name+"\"") {
+				c.R.Add(Finding{Kind: "oracle", What: "a transfer adapter named only in .lfsconfig was advertised to the server", Case: enc, Impl: clip(rq.Body, 300)})
+				break
+			}
+		}
+		srv.mu.Unlock()
+		srv.srv.Close()
+		os.RemoveAll(base)
 	}
 }
 
